@@ -156,6 +156,32 @@ let check_replace (arrivals : (n * dt_pd list) list) (s : snap) =
                 r := Propfail ("dtlsr.replace.invented", "record stored for " ^ dec_of_n d.pd_id ^ " without arrival") :: !r) s.s_recv;
   !r
 
+(* the node's own record about the neighbours it is connected to right now: present and live (value 0),
+   whatever happened before (lost and come back, purged and come back) *)
+let check_connected (connected : n list) (s : snap) =
+  List.filter_map (fun p ->
+      match List.assoc_opt p s.s_own with
+      | Some t when t = N0 -> None
+      | Some t -> Some (Propfail ("dtlsr.own.connected-neighbour-lost",
+                                  Printf.sprintf "neighbour %s is connected, the node's own link state says lost at %s (link cost = time since then instead of 0)" (dec_of_n p) (dec_of_n t)))
+      | None -> Some (Propfail ("dtlsr.own.connected-neighbour-missing",
+                                Printf.sprintf "neighbour %s is connected but is not in the node's own peer list (purged while connected)" (dec_of_n p))))
+    connected
+
+(* the table against the graph in which the links to the connected neighbours cost 0 *)
+let validate_connected (connected : n list) (s : snap) (now : n) =
+  let own = List.fold_left (fun own p -> (p, N0) :: List.remove_assoc p own) s.s_own connected in
+  let s' = { s with s_own = own; s_index = List.fold_left (fun idx p -> if List.mem p idx then idx else idx @ [p]) s.s_index connected } in
+  let (vs, _) = validate_table (state_of_snap s') now s.s_table in
+  List.sort_uniq compare (List.filter_map (function
+      | Propfail (k, d) ->
+        let k' = (match k with
+            | "dtlsr.table.nonoptimal-hop" -> "dtlsr.table.connected.nonoptimal-hop"
+            | "dtlsr.table.missing" -> "dtlsr.table.connected.missing"
+            | _ -> "dtlsr.table.connected.other") in
+        Some (Propfail (k', "with the links to the connected neighbours at cost 0: " ^ d))
+      | _ -> None) vs)
+
 let run = function
   | [label; base; ops; cps; flagok] ->
     let base = s_n base in
@@ -167,6 +193,11 @@ let run = function
     let st = ref (dt_init N0 N0) in
     let arrivals = ref [] in
     let prev_tbl = ref (Some (0, [])) in
+    (* the neighbours connected right now: appeared and not disappeared since *)
+    let connected : n list ref = ref [] in
+    let purged : n list ref = ref [] in
+    let neighbours = List.sort_uniq compare (List.filter_map (function DtAppear (p, _) -> Some p | _ -> None) ops) in
+    let done_ops = ref [] in
     List.iteri (fun i op ->
         let k = i + 1 in
         let before = !st in
@@ -179,9 +210,23 @@ let run = function
                | None -> "notify-new"
                | Some old -> if dt_should_replace d old then "notify-replace" else if old.pd_ts = d.pd_ts then "notify-equal-kept" else "notify-older-kept") :: !tags;
            if d.pd_id = N0 then tags := "record-claims-own-id" :: !tags
-         | DtAppear _ -> tags := "appear" :: !tags
-         | DtDisappear (p, _) -> tags := (if dt_find_index p before.dt_index = None then "disappear-noindex" else "disappear") :: !tags
-         | DtPurge _ -> tags := (if List.length !st.dt_own < List.length before.dt_own then "purge-removed" else "purge-none") :: !tags
+         | DtAppear (p, _) ->
+           tags := "appear" :: !tags;
+           (match List.assoc_opt p before.dt_own with
+            | Some t when t <> N0 -> tags := "reappear-before-purge" :: !tags
+            | None when List.mem p !purged -> tags := "appear-again-after-purge" :: !tags
+            | _ -> ());
+           ()
+         | DtDisappear (p, _) ->
+           tags := (if dt_find_index p before.dt_index = None then "disappear-noindex" else "disappear") :: !tags
+         | DtPurge _ ->
+           tags := (if List.length !st.dt_own < List.length before.dt_own then "purge-removed" else "purge-none") :: !tags;
+           List.iter (fun (p, _) -> if not (List.mem_assoc p !st.dt_own) then purged := p :: !purged) before.dt_own
+         | _ -> ());
+        (* "connected" as in theorem C20_connected_neighbour_live *)
+        done_ops := op :: !done_ops;
+        (match op with
+         | DtAppear _ | DtDisappear _ -> connected := List.filter (fun p -> dt_connected (List.rev !done_ops) p) neighbours
          | _ -> ());
         let recomputed = match op with
           | DtCompute _ -> true
@@ -194,10 +239,18 @@ let run = function
           let ms = compare_state !st s in
           r := ms @ !r;
           r := check_replace !arrivals s @ !r;
+          let cvs = check_connected !connected s in
+          r := cvs @ !r;
+          if !connected <> [] then tags := "connected-neighbours-checked" :: !tags;
+          if List.exists (fun (_, t) -> t <> N0) s.s_own && !connected <> [] then tags := "connected-and-lost-neighbours" :: !tags;
+          (match op with DtPurge _ when !connected <> [] -> tags := "purge-with-connected" :: !tags | _ -> ());
           if recomputed then begin
             (* the property's check: the implementation's table against the implementation's own link state *)
             let (vs, tg) = validate_table (state_of_snap s) base s.s_table in
             r := vs @ !r; tags := tg @ !tags;
+            (* ... and, when that link state misrepresents a connected neighbour, against the graph in which
+               the links to the connected neighbours are live *)
+            if cvs <> [] then r := validate_connected !connected s base @ !r;
             (* correspondence: the model's own table has the same destinations *)
             let keys l = List.sort_uniq compare (List.map (fun (d, _) -> int_of_n d) l) in
             if ms = [] && vs = [] && keys !st.dt_table <> keys s.s_table then r := Mismatch "table destinations differ from the model's" :: !r
@@ -233,6 +286,7 @@ let fwd = function
     let base = s_n base in
     let r = ref [] and tags = ref ["fwd"] in
     let table = ref [] in
+    let conn : n list ref = ref [] in
     let handed : (int * n list) list ref = ref [] in
     List.iter (fun ev -> match lst ev with
         | [Atom "bcast"; u; prev; peers; sends; pend] ->
@@ -255,13 +309,18 @@ let fwd = function
           handed := (s_int u, had @ sends) :: List.remove_assoc (s_int u) !handed;
           tags := "bcast-reoffer" :: !tags
         | [Atom "down"; _] -> tags := "peer-down" :: !tags
+        | [Atom "up-again"; _] -> tags := "peer-up-again" :: !tags
+        | [Atom "conn"; peers] -> conn := List.map s_n (lst peers)
         | [Atom "table"; s] ->
           let s = snap_of_s s in
           table := s.s_table;
           let st = state_of_snap s in
           if not s.s_cons then r := Mismatch "nodeIndex / indexNode / length inconsistent" :: !r;
           let (vs, tg) = validate_table st base s.s_table in
-          r := vs @ !r; tags := tg @ !tags
+          r := vs @ !r; tags := tg @ !tags;
+          let cvs = check_connected !conn s in
+          r := cvs @ !r;
+          if cvs <> [] then r := validate_connected !conn s base @ !r
         | [Atom "table-own"; s] ->
           let s = snap_of_s s in
           (match List.find_opt (fun d -> d.pd_id = N0) s.s_recv with
@@ -269,7 +328,10 @@ let fwd = function
            | Some d -> if sort_pairs d.pd_peers <> sort_pairs s.s_own then
                r := Mismatch "the stored own record differs from the own peer list" :: !r);
           let (vs, tg) = validate_table (state_of_snap s) base s.s_table in
-          r := vs @ !r; tags := "table-with-own-record" :: tg @ !tags
+          r := vs @ !r; tags := "table-with-own-record" :: tg @ !tags;
+          let cvs = check_connected !conn s in
+          r := cvs @ !r;
+          if cvs <> [] then r := validate_connected !conn s base @ !r
         | [Atom "uni"; v; bare; peers; sends; pend] ->
           let peers = List.map s_n (lst peers) and sends = List.map fst (sends_of_s sends) in
           let v = s_n v and bare = s_bool bare and pend = s_bool pend in
@@ -298,11 +360,53 @@ let fwd = function
     if !r = [] then [Ok_ (List.sort_uniq compare !tags)] else List.rev !r
   | _ -> raise (Bad "fwd case")
 
+(* ------------------------------------------------------------------------------------------ *)
+(* (case n conc ((id known base ((ts mark)...) stored)...)) : updates of one origin with distinct timestamps
+   delivered by several goroutines at once.  NotifyNewBundle is one atomic step (dataMutex held from the
+   look-up to the store), so whatever the schedule the result is that of some sequential arrival order, and
+   by C20_replace_any_order every order keeps the record with the greatest timestamp. *)
+let conc = function
+  | [rounds] ->
+    let r = ref [] and tags = ref ["conc"] in
+    List.iter (fun rd -> match lst rd with
+        | [id; known; base; del; stored] ->
+          let id = s_n id and known = s_bool known and base = s_n base in
+          let del = List.map (fun e -> match lst e with [ts; m] -> (s_n ts, s_n m) | _ -> raise (Bad "conc delivery")) (lst del) in
+          let st0 = dt_init N0 N0 in
+          let st0 = if known then dt_step st0 (DtNotify { pd_id = id; pd_ts = base; pd_peers = [(ni 900, N0)] }) else st0 in
+          let stm = List.fold_left (fun st (ts, m) -> dt_step st (DtNotify { pd_id = id; pd_ts = ts; pd_peers = [(m, N0)] })) st0 del in
+          let model = match dt_recv_get id stm.dt_recv with
+            | Some d -> Some (d.pd_ts, (match d.pd_peers with (m, _) :: _ -> m | [] -> N0))
+            | None -> None in
+          let best = List.fold_left (fun acc (ts, m) -> match acc with
+              | Some (t, _) when dec_cmp (dec_of_n ts) (dec_of_n t) <= 0 -> acc
+              | _ -> Some (ts, m)) None del in
+          tags := (if known then "conc-known-origin" else "conc-new-origin") :: Printf.sprintf "conc-k=%d" (List.length del) :: !tags;
+          (match lst stored, best with
+           | [], _ ->
+             r := Propfail ("dtlsr.replace.concurrent.lost", Printf.sprintf "no record stored for %s after %d concurrent deliveries" (dec_of_n id) (List.length del)) :: !r
+           | [ts; m; np], Some (bt, bm) ->
+             let ts = s_n ts and m = s_n m and np = s_int np in
+             let c = dec_cmp (dec_of_n ts) (dec_of_n bt) in
+             if c < 0 then
+               r := Propfail ("dtlsr.replace.concurrent.not-newest",
+                              Printf.sprintf "origin %s: stored link-state data has timestamp %s although %s was delivered (concurrently): an older update replaced a newer one"
+                                (dec_of_n id) (dec_of_n ts) (dec_of_n bt)) :: !r
+             else if c > 0 then r := Propfail ("dtlsr.replace.invented", "stored timestamp was never delivered") :: !r
+             else if m <> bm || np <> 2 then
+               r := Propfail ("dtlsr.replace.concurrent.mixed-record", Printf.sprintf "origin %s: the stored record carries the newest timestamp but not the peer list delivered with it" (dec_of_n id)) :: !r
+             else if model <> Some (ts, m) then r := Mismatch "concurrent deliveries: model keeps another record" :: !r
+           | _ -> raise (Bad "conc stored"))
+        | _ -> raise (Bad "conc round")) (lst rounds);
+    if !r = [] then [Ok_ (List.sort_uniq compare !tags)] else List.sort_uniq compare !r
+  | _ -> raise (Bad "conc case")
+
 let skipped = function _ -> [Ok_ ["skipped-slow"]]
 
 let () =
   register "C20dtlsr" "sr" sr;
   register "C20dtlsr" "run" run;
   register "C20dtlsr" "skipped" skipped;
+  register "C20conc" "conc" conc;
   register "C20fwd" "fwd" fwd;
   register "C20fwd" "skipped" skipped
